@@ -41,7 +41,7 @@ def plan(tier, seed):
 def mandatory_bins(tier):
     b = ["hash_" + h for h in HASHES] + ["enc_" + e for e in ENCODINGS]
     b += ["digest_longer_than_order", "key_scalar_1", "key_scalar_n-1", "lib_sig_verified_by_openssl", "openssl_sig_verified_by_lib", "rfc6979_compared", "message_bit_flips", "signature_bit_flips",
-          "other_key", "forged_r_0", "forged_s_0", "forged_r_n", "forged_s_n", "forged_r_n_plus_1", "forged_2^k", "malformed_truncated", "malformed_extended", "malformed_retagged", "der_long_form_length", "high_s_and_low_s", "verifying_key_with_precomputed_tables"]
+          "other_key", "forged_r_0", "forged_s_0", "forged_r_n", "forged_s_n", "forged_r_n_plus_1", "forged_2^k", "malformed_truncated", "malformed_extended", "malformed_retagged", "der_long_form_length", "high_s_and_low_s", "verifying_key_with_precomputed_tables", "rfc6979_with_additional_data", "rfc6979_with_additional_data_and_rejected_first_candidate"]
     return b
 
 
@@ -177,6 +177,29 @@ def run_shard(spec, ctx):
                 ctx.mon("rfc6979_model")
                 if (gr, gs) != (er, es):
                     ctx.violation("deterministic_signature_differs_from_rfc6979", {"hash": hname, "got": (gr, gs), "expected": (er, es)}, rp)
+                # ---- RFC 6979 section 3.6: additional data k' (extra_entropy); in particular when the first candidate is rejected,
+                # where the retry step must NOT mix k' in again
+                if ename == "string":
+                    extra = rng.randbytes(rng.choice((1, 8, 32)))
+                    m2 = msg
+                    st = {}
+                    for t in range(40):
+                        st = {}
+                        m2 = msg + bytes((t,))
+                        RFC.first_nonce_stats(n, d, hf(m2).digest(), hf, extra, st)
+                        if st.get("rejected"):
+                            break
+                    dg2 = hf(m2).digest()
+                    xr, xs, _ = RFC.sign(n, d, dg2, hf, lambda k: ossl.point_mul(name, k)[0], extra)
+                    ctx.bin("rfc6979_with_additional_data")
+                    if st.get("rejected"):
+                        ctx.bin("rfc6979_with_additional_data_and_rejected_first_candidate")
+                    try:
+                        gx = sigdec(sk.sign_deterministic(m2, hashfunc=hf, sigencode=sigenc, extra_entropy=extra), n)
+                        if tuple(gx) != (xr, xs):
+                            ctx.violation("deterministic_signature_with_additional_data_differs_from_rfc6979" + (":after_rejected_candidate" if st.get("rejected") else ""), {"hash": hname, "got": gx, "expected": (xr, xs)}, dict(rp, msg=m2.hex(), extra=extra.hex()))
+                    except Exception as e:
+                        ctx.violation("sign_raises", {"exc": fmt_exc(e), "extra_entropy": True}, rp)
                 # ---- OpenSSL signs, library verifies (both s and n-s are valid signatures) -----------------------------------
                 orr, os_ = ossl.ecdsa_sign(name, d, digest)
                 for ss in (os_, n - os_):
